@@ -510,7 +510,7 @@ def _unpack_types(cls):
             out.extend(_unpack_types(c))
         return out
     args = getattr(cls, "__args__", None)
-    if args is not None and type(cls).__name__ in ("UnionType", "_UnionGenericAlias"):
+    if args is not None and type(cls).__name__ in ("UnionType", "_UnionGenericAlias", "_Union"):
         out = []
         for c in args:
             out.extend(_unpack_types(c))
